@@ -591,6 +591,42 @@ def dimacs_sign(prog):
                     if x[0] == "gamma" and x[1][0] == "discr" and mir.is_call(x[1][1], "sign"):
                         found.append((gt, x))
         if not found:
+            # the polarity as a comparison with one of the two signs (`l.sign() != Sign::Neg`, `sign == Sign::Pos`), or
+            # computed by a shared helper (`lit_polarity(l)`) whose body is the match / comparison
+            cmp_ = None
+            bodies = list(canon.local_bodies(prog, fn))
+            for g in list(bodies):
+                for cs in g.terms.calls:
+                    if cs.callee.local and len(cs.args) == 1 and cs.callee.name not in ("from_dimacs",):
+                        for h in prog.resolve(cs.callee):
+                            if h not in bodies and h.terms.ret is not None and "sign(" in show(h.terms.ret):
+                                bodies.append(h)
+            for g in bodies:
+                gt = g.terms
+                allterms = [cs.term for cs in gt.calls] + [a for cs in gt.calls for a in cs.args] + \
+                           [t for _, t, _ in gt.aggs] + ([gt.ret] if gt.ret is not None else [])
+                for t in allterms:
+                    for x in [t] + list(mir.subterms(t)):
+                        if isinstance(x, tuple) and x and x[0] == "gamma" and x[1][0] == "discr" and mir.is_call(x[1][1], "sign"):
+                            found.append((gt, x))
+                        l = r = op = None
+                        if isinstance(x, tuple) and x and x[0] == "bin" and x[1] in ("Eq", "Ne"):
+                            l, r, op = strip(x[2]), strip(x[3]), x[1]
+                        elif mir.is_call(x) and x[1].name in ("eq", "ne") and len(x[2]) == 2:
+                            l, r, op = strip(x[2][0]), strip(x[2][1]), "Eq" if x[1].name == "eq" else "Ne"
+                        if op:
+                            if r[0] != "const":
+                                l, r = r, l
+                            if r[0] == "const" and mir.is_call(l, "sign") and isinstance(r[2], str) and r[2].endswith(("Sign::Neg", "Sign::Pos")):
+                                cmp_ = (op, r[2].rsplit("::", 1)[1])
+            if not found and cmp_:
+                op, which = cmp_
+                pos_true = (which == "Pos") == (op == "Eq")
+                out.append(inst("DP", fn.npath + ":sign", OK if pos_true else VIOLATION, fn, None,
+                                "polarity = (sign %s Sign::%s): Neg ↦ false, Pos ↦ true" % ("==" if op == "Eq" else "!=", which) if pos_true else
+                                "the polarity is (sign %s Sign::%s): Sign::Neg maps to true and Sign::Pos to false" % ("==" if op == "Eq" else "!=", which)))
+                continue
+        if not found:
             out.append(inst("DP", fn.npath + ":sign", UNDECIDED, fn, None, "no match on the literal's sign found"))
             continue
         gt, x = found[0]
